@@ -196,6 +196,12 @@ Theorem trim_tree_panics_outside_tree_formats : forall buildf sitef fmt,
 Proof. exact trim_site_panics_outside. Qed.
 Print Assumptions trim_tree_panics_outside_tree_formats.
 
+(* -- F38 (known finding): the web handlers do NOT turn every report error into a 400 -- the smallest positive
+   float64 is a divisor whose reciprocal overflows; /flamegraph then answers 500 (class predicate of the finding) *)
+Theorem web_errors_are_400_refuted : reciprocal_overflows 1 (2 ^ 1074) = true /\ reciprocal_overflows 1 2 = false.
+Proof. vm_compute. split; reflexivity. Qed.
+Print Assumptions web_errors_are_400_refuted.
+
 (* -- non-vacuity and the necessity of the hypotheses -- *)
 Example trim_tree_sites_exist : trim_tree_sites <> [] /\ build_tree_formats <> [].
 Proof. split; discriminate. Qed.
